@@ -115,4 +115,34 @@ theorem measResetMeas_gf_ne :
     expect id measResetMeasProg (shotProd xTest) ≠ measResetMeasBornGF xTest * measResetMeasBornGF xTest := by
   decide +kernel
 
+/-! ### a SINGLE peek followed by a collapsing measurement of the same range: `h; peek→0; measure→1`
+
+One peek per range between collapses is already enough to break the law: the peek writes its zeros to the
+leading shots of the (unsplit) range and the following measurement sends its zeros to the leading shots too. -/
+
+def peekMeas : List (COp Empty) := [.gate .H [0], .peek 0 0 .Z, .measure 0 1 .Z]
+
+def peekMeasProg : Prog Q8 (VecState Q8 × List Nat) :=
+  execOps (vecBackend (α := Q8) (P := Empty)) (VecState.new 1 2) [0, 0] peekMeas
+
+/-- Born rule: the peek shows `o0` with probability `‖P_{o0}ψ‖²` and keeps `ψ = H|0⟩`; the measurement then shows
+`o1` with probability `‖P_{o1}ψ‖²` -/
+def peekMeasBornGF (x : Nat → Q8) : Q8 :=
+  ([false, true].flatMap fun o0 => [false, true].map fun o1 =>
+    normSqSum (Spec.measureTo (P := Empty) 1 0 .Z o0 plus) * normSqSum (Spec.measureTo (P := Empty) 1 0 .Z o1 plus)
+      * x (Spec.writeBit (Spec.writeBit 0 0 o0) 1 o1)).foldl (· + ·) 0
+
+def peekMeasBorn (v : Nat) : Q8 := peekMeasBornGF fun u => if u = v then 1 else 0
+
+theorem peekMeas_born : ∀ v ∈ [0, 1, 2, 3], peekMeasBorn v = q8Rat (1/4) := by decide +kernel
+theorem peekMeas_model_12 : expect id peekMeasProg (pairIs 1 2) = 0 := by decide +kernel
+theorem peekMeas_born_12 : (1 + 1) * peekMeasBorn 1 * peekMeasBorn 2 = q8Rat (1/8) := by decide +kernel
+theorem peekMeas_model_total : expect id peekMeasProg (fun _ => 1) = 1 := by decide +kernel
+theorem peekMeas_gf_ne : expect id peekMeasProg (shotProd xTest) ≠ peekMeasBornGF xTest * peekMeasBornGF xTest := by
+  decide +kernel
+/-- with ONE shot the peek is right: every value has probability ¼ (the defect is in the joint law of the shots) -/
+theorem peekMeas_one_shot : ∀ v ∈ [0, 1, 2, 3],
+    expect id (execOps (vecBackend (α := Q8) (P := Empty)) (VecState.new 1 1) [0] peekMeas)
+      (fun sc => if sc.2 = [v] then 1 else 0) = q8Rat (1/4) := by decide +kernel
+
 end Q1t.Sim.Witness
